@@ -113,6 +113,7 @@ pub fn judge(ctx: &Ctx, l: &mut Local, m: &Params, site: Site, date: NaiveDate, 
 
 pub fn explore(ctx: &Ctx) {
     // call sequences from non-initial states (see history.rs)
+    crate::history::explore(ctx, "long_ranges", &crate::history::alphabet_long_ranges(), 2);
     crate::history::explore(ctx, "policy", &crate::history::alphabet_policy(), 2);
     let quick = ctx.tier == Tier::Quick;
     ctx.rule("every (site, method, date) enumerated once, dates in order; non-trivial = dates on which Fajr or Isha is conventionally missing (the fallback engaged); ties (two good dates at equal distance) counted separately");
